@@ -6,11 +6,15 @@ def design(ctx):
     # D: heap array + index map with the code's percolate / RemoveAt / UpdateAt / heapify (PQ.tla): heap order,
     #    exact index map, array denotes the key->priority map, Pop/Peek answer minimal - every history over 5 (7) keys
     mc(ctx, "heap", "PQ", ctx.pick("mc_pq.cfg", "mc_pq7.cfg"), "PQ I-layer", coverage=False, timeout=3000)
+    # the same with a coarse order (p \div 2): different priorities that tie
+    mc(ctx, "heap", "PQ", "mc_pq_c.cfg", "PQ I-layer, coarse order", coverage=False, timeout=3000)
     if not ctx.quick():
         mc_must_fail(ctx, "heap", "PQ", "mc_pq_noup.cfg", "RemoveAt without percolateUp", expect="HeapOrder")
     # R: every reachable heap-array shape over 5 keys x every call, on the real queue (ties: other minima are
     #    accepted as legal deviations)
     lts_replay(ctx, "heap", "PQ", "lts_pqi.cfg", "pq5", depth=2, walks=ctx.pick(2000, 20000), wlen=40, budget=ctx.pick(50000, 500000))
+    if not ctx.quick():
+        lts_replay(ctx, "heap", "PQ", "lts_pqi_c.cfg", "pq5", variant="cmpcoarse", depth=2, walks=ctx.pick(2000, 20000), wlen=40, budget=ctx.pick(50000, 500000))
 
 
 def run(ctx):
@@ -27,5 +31,11 @@ def run(ctx):
     drive_tv(ctx, "heap", "Trace_PQ", "tvq.cfg", "pq", runs=ctx.pick(24, 240), ops=ctx.pick(300, 600))
     # larger queues (7-24 keys): removals/updates of inner keys followed by pops
     drive_tv(ctx, "heap", "Trace_PQ", "tvq_big.cfg", "pq", variant="big", runs=ctx.pick(80, 600), ops=ctx.pick(300, 600))
+    # coarse orders (p/3, less- and cmp-built with an unnormalised compare): an Update to a different priority that ties
+    # with the old one must still be stored; Pop may return any key of the minimal class
+    drive_tv(ctx, "heap", "Trace_PQ", "tvq_c.cfg", "pq", variant="coarse", runs=ctx.pick(24, 240), ops=ctx.pick(300, 600))
+    drive_tv(ctx, "heap", "Trace_PQ", "tvq_big_c.cfg", "pq", variant="bigcoarse", runs=ctx.pick(40, 400), ops=ctx.pick(300, 600))
+    lts_replay(ctx, "heap", "PQP", "ltsq_c.cfg", "pq4", variant="coarse", depth=4, walks=ctx.pick(3000, 30000), wlen=40,
+               budget=ctx.pick(150000, 1500000), min_cover=0)
     ctx.assumptions += ["heap contents are observed with a fresh, fully drained iterator after every call",
                         "ties and duplicate initial keys: any candidate the statement allows is accepted"]
